@@ -183,7 +183,7 @@ func runBusScenario(rt *Runtime, r *RunCtx, s *Script) {
 		r.State("sched:" + digest[:16])
 		r.Logf("bus scenario steps=%d digest=%s delivered=%d finished=%v", steps, digest, delivered.Load(), finished)
 		for _, p := range sc.Panics {
-			r.Violate("C20", "goroutine_panic", map[string]string{"component": "pubsub", "site": panicSite(&PanicInfo{Stack: p.Stack, Value: p.Value})}, "goroutine %s panicked: %s", p.Goroutine, p.Value)
+			r.Violate("C20", "goroutine_panic", map[string]string{"component": "pubsub", "site": panicSite(&PanicInfo{Stack: p.Stack, Value: p.Value}), "panic": panicKind(p.Value)}, "goroutine %s panicked: %s", p.Goroutine, p.Value)
 		}
 		seen := map[string]bool{}
 		for _, f := range sc.Findings {
